@@ -203,6 +203,11 @@ def case_full(case):
                 out["poly_cases"] = poly_cases(indict, marker, x, out["verdict0"], x)
             except Exception as e:
                 out["poly_error"] = type(e).__name__ + ": " + str(e)[:120]
+        if case.get("poly", True):
+            try:
+                out["pipeline_case"] = pipeline_case(indict, marker, x)
+            except Exception as e:
+                out["pipeline_error"] = type(e).__name__ + ": " + str(e)[:120]
         # ---- values at a random point
         rng = random.Random(case.get("pt_seed", 1))
         A, b, c = sysd["A"], sysd["b"], sysd["c"]
@@ -803,3 +808,54 @@ def poly_cases(indict, marker, x, verdict0, state_vars):
         except Exception as ex:
             out.append({"bridge_error": type(ex).__name__ + ": " + str(ex)[:100], "rhs": rhs.strip()})
     return out
+
+
+def _nice_floats(e):
+    """every Float of the tree is a small dyadic rational, so that SymPy's double arithmetic on the few sums and
+    products of an expansion is exact and the model's rational arithmetic must agree with it"""
+    import sympy
+    from fractions import Fraction
+    for a in sympy.preorder_traversal(e):
+        if a.is_Float:
+            f = Fraction(float(a))
+            if f.denominator > 1024 or abs(f) > 2 ** 20:
+                return False
+    return True
+
+
+def pipeline_case(indict, marker, x):
+    """payload for the model's op `pipeline` (the whole analysis on the Laurent-polynomial fragment) when every entry is
+    an ODE whose right-hand side lies in that fragment; None otherwise.  Built from the *unevaluated* parse of the text."""
+    import sympy
+    from sympy.parsing.sympy_parser import parse_expr
+    tname = indict.get("options", {}).get("input_time_symbol", "t")
+    gd = {"Symbol": sympy.Symbol, "Integer": sympy.Integer, "Float": sympy.Float, "Rational": sympy.Rational, "e": sympy.E, "E": sympy.E,
+          "Add": sympy.Add, "Mul": sympy.Mul, "Pow": sympy.Pow, "Function": sympy.Function}
+    ents = []
+    names = set(x) | {tname}
+    for d in indict.get("dynamics", []):
+        if d["expression"].count("=") != 1:
+            return None
+        lhs, rhs = d["expression"].split("=")
+        lhs = lhs.strip()
+        o = lhs.count("'")
+        if o == 0:
+            return None                      # function-of-time entry: outside the fragment
+        name = lhs.replace("'", "").strip()
+        e = parse_expr(rhs.strip().replace("'", marker), global_dict=gd, evaluate=False)
+        if any(a == sympy.E for a in sympy.preorder_traversal(e)) or not _nice_floats(e):
+            return None
+        names |= {str(q) for q in e.free_symbols}
+        ents.append((name, o, e, rhs.strip()))
+    syms = sorted(names)
+    pos = {q: i for i, q in enumerate(syms)}
+    entries = []
+    try:
+        for name, o, e, _ in ents:
+            derivs = [name + marker * k for k in range(o)]
+            if any(v not in pos for v in derivs):
+                return None
+            entries.append({"derivs": [pos[v] for v in derivs], "expr": sympy_to_poly(e, lambda q: pos[str(q)])})
+    except _NotPoly:
+        return None
+    return {"n": len(syms), "time": pos[tname], "entries": entries, "symbols": syms}
